@@ -11,25 +11,60 @@
 (* Program statements (field k):                                                                                    *)
 (*   label [name, oid, hasBody, body]   const [name, oid]   braces [sid, body]   if0 [body] (untaken `.if 0 {..}')   *)
 (*   use [path, oids] (oid per segment, super included)     import [file, sid]  (`.import * from file')              *)
+(*   ifelse [c, then, else]  (`.if c {..} else {..}' with c = 0 or 1; the branch not taken is still analysed:         *)
+(*                            C15 counts occurrences in untaken branches explicitly)                                  *)
+(*   macrodef [name, oid, params, poids, body]   macrocall [name, oid]  (`name(2, ..)', literal arguments)             *)
+(* Macros: a call denotes the nearest enclosing symbol of that name that IS a macro (other symbols of the name are    *)
+(* skipped); every call expands the body in a fresh scope under the calling scope in which the parameters are         *)
+(* defined, so equally named parameters of different macros (or of different calls) are different symbols that share  *)
+(* their definition site only when they are the same parameter.                                                       *)
 (* oid = identity of an identifier occurrence (its position is the renderer's business).  A node is identified by   *)
 (* the oid of its definition site.                                                                                  *)
 EXTENDS Asm
 
 Ent(oid, at, target, kind) == [oid |-> oid, at |-> at, target |-> target, kind |-> kind]
-KindOf(s) == IF s.k = "const" THEN "const" ELSE IF s.hasBody THEN "scope" ELSE "label"
+KindOf(s) == IF s.k = "const" THEN "const" ELSE IF s.k = "macrodef" THEN "macro" ELSE IF s.hasBody THEN "scope" ELSE "label"
 TopDefs(prog) == {i \in 1..Len(prog) : prog[i].k \in {"label", "const"}}
 
+(* macro definitions by key (structural), and the macro a call in `scope' selects: nearest enclosing key that is a macro *)
+RECURSIVE MacroStmts(_, _)
+MacroStmts(prog, scope) ==
+  IF prog = <<>> THEN <<>>
+  ELSE LET s == Head(prog)
+           here == CASE s.k = "macrodef" -> (Key(scope, <<s.name>>) :> s)
+                     [] s.k = "label" -> (IF s.hasBody THEN MacroStmts(s.body, Append(scope, s.name)) ELSE <<>>)
+                     [] s.k = "braces" -> MacroStmts(s.body, Append(scope, s.sid))
+                     [] s.k = "if0" -> MacroStmts(s.body, scope)
+                     [] s.k = "ifelse" -> MacroStmts(s.then, scope) @@ MacroStmts(s.else, scope)
+                     [] OTHER -> <<>>
+       IN here @@ MacroStmts(Tail(prog), scope)
+RECURSIVE MacroKey(_, _, _)
+MacroKey(md, scope, name) ==
+  IF Key(scope, <<name>>) \in DOMAIN md THEN Key(scope, <<name>>)
+  ELSE IF scope = <<>> THEN "" ELSE MacroKey(md, Front(scope), name)
+CallScope(scope, s) == Append(scope, "$m" \o ToString(s.oid))          \* the fresh scope of one expansion
+DefScope(scope, s) == Append(scope, "$d" \o ToString(s.oid))           \* the body as written, parameters bound
+ParamEnts(d, M) == [k \in {Key(M, <<d.params[i]>>) : i \in 1..Len(d.params)} |->
+                      LET i == CHOOSE i \in 1..Len(d.params) : Key(M, <<d.params[i]>>) = k IN
+                      Ent(d.poids[i], M, Append(M, d.params[i]), "const")]
+
 (* symbol table: key -> [oid of the definition, scope the key lives in, scope its children live in] *)
-RECURSIVE DefsOf(_, _, _)
-DefsOf(prog, scope, files) ==
+RECURSIVE DefsOf(_, _, _, _)
+DefsOf(prog, scope, files, md) ==
   IF prog = <<>> THEN <<>>
   ELSE LET s == Head(prog)
            here ==
              CASE s.k = "label" -> (Key(scope, <<s.name>>) :> Ent(s.oid, scope, Append(scope, s.name), KindOf(s)))
-                                   @@ (IF s.hasBody THEN DefsOf(s.body, Append(scope, s.name), files) ELSE <<>>)
+                                   @@ (IF s.hasBody THEN DefsOf(s.body, Append(scope, s.name), files, md) ELSE <<>>)
                [] s.k = "const" -> (Key(scope, <<s.name>>) :> Ent(s.oid, scope, Append(scope, s.name), "const"))
-               [] s.k = "braces" -> DefsOf(s.body, Append(scope, s.sid), files)
-               [] s.k = "if0" -> DefsOf(s.body, scope, files)
+               [] s.k = "braces" -> DefsOf(s.body, Append(scope, s.sid), files, md)
+               [] s.k = "if0" -> DefsOf(s.body, scope, files, md)
+               [] s.k = "ifelse" -> DefsOf(s.then, scope, files, md) @@ DefsOf(s.else, scope, files, md)
+               [] s.k = "macrodef" -> (Key(scope, <<s.name>>) :> Ent(s.oid, scope, Append(scope, s.name), "macro"))
+                                      @@ ParamEnts(s, DefScope(scope, s)) @@ DefsOf(s.body, DefScope(scope, s), files, md)
+               [] s.k = "macrocall" -> LET k == MacroKey(md, scope, s.name) IN
+                                       IF k = "" THEN <<>>
+                                       ELSE ParamEnts(md[k], CallScope(scope, s)) @@ DefsOf(md[k].body, CallScope(scope, s), files, md)
                [] s.k = "import" ->
                     (* the file's symbols live in an anonymous scope; its top-level names are aliased into the importing scope *)
                     LET p == files[s.file]
@@ -37,9 +72,9 @@ DefsOf(prog, scope, files) ==
                         T == TopDefs(p) IN
                     [k \in {Key(scope, <<p[i].name>>) : i \in T} |->
                        LET i == CHOOSE i \in T : Key(scope, <<p[i].name>>) = k IN Ent(p[i].oid, scope, Append(isc, p[i].name), KindOf(p[i]))]
-                    @@ DefsOf(p, isc, files)
+                    @@ DefsOf(p, isc, files, md)
                [] OTHER -> <<>>
-       IN here @@ DefsOf(Tail(prog), scope, files)
+       IN here @@ DefsOf(Tail(prog), scope, files, md)
 
 (* walk a super-free path downwards from scope cur: the oid of the node every segment denotes *)
 RECURSIVE WalkPath(_, _, _, _)
@@ -67,26 +102,45 @@ Resolve(tab, scope, path) ==
               [ok |-> w.ok, oids |-> [i \in 1..(Len(path) - Len(r.path)) |-> SuperNode(tab, SubSeq(scope, 1, Len(scope) - i))] \o w.oids]
   ELSE BubbleWalk(tab, scope, path)
 
-(* all identifier occurrences: [oid, node, def, file, scope, name, path, seg] ; node = -1 when the path does not resolve *)
-Occ(oid, node, def, file, scope, name, path, seg) ==
-  [oid |-> oid, node |-> node, def |-> def, file |-> file, scope |-> scope, name |-> name, path |-> path, seg |-> seg]
-RECURSIVE OccsOf(_, _, _, _, _)
-OccsOf(prog, scope, file, files, tab) ==
+(* all identifier occurrences: [oid, node, def, file, scope, name, path, seg, call] ; node = -1 when the path does not resolve. *)
+(* An occurrence inside a macro body is listed once per expansion (same oid).                                                *)
+OccC(oid, node, def, file, scope, name, path, seg, call) ==
+  [oid |-> oid, node |-> node, def |-> def, file |-> file, scope |-> scope, name |-> name, path |-> path, seg |-> seg, call |-> call]
+Occ(oid, node, def, file, scope, name, path, seg) == OccC(oid, node, def, file, scope, name, path, seg, FALSE)
+RECURSIVE OccsOf(_, _, _, _, _, _)
+OccsOf(prog, scope, file, files, tab, md) ==
   IF prog = <<>> THEN {}
   ELSE LET s == Head(prog)
            here ==
              CASE s.k = "label" -> {Occ(s.oid, s.oid, TRUE, file, scope, s.name, <<s.name>>, 1)}
-                                   \cup (IF s.hasBody THEN OccsOf(s.body, Append(scope, s.name), file, files, tab) ELSE {})
+                                   \cup (IF s.hasBody THEN OccsOf(s.body, Append(scope, s.name), file, files, tab, md) ELSE {})
                [] s.k = "const" -> {Occ(s.oid, s.oid, TRUE, file, scope, s.name, <<s.name>>, 1)}
-               [] s.k = "braces" -> OccsOf(s.body, Append(scope, s.sid), file, files, tab)
-               [] s.k = "if0" -> OccsOf(s.body, scope, file, files, tab)
+               [] s.k = "braces" -> OccsOf(s.body, Append(scope, s.sid), file, files, tab, md)
+               [] s.k = "if0" -> OccsOf(s.body, scope, file, files, tab, md)
+               [] s.k = "ifelse" -> OccsOf(s.then, scope, file, files, tab, md) \cup OccsOf(s.else, scope, file, files, tab, md)
+               [] s.k = "macrodef" ->
+                    LET M == DefScope(scope, s) IN
+                    {Occ(s.oid, s.oid, TRUE, file, scope, s.name, <<s.name>>, 1)}
+                    \cup {Occ(s.poids[i], s.poids[i], TRUE, file, M, s.params[i], <<s.params[i]>>, 1) : i \in 1..Len(s.params)}
+                    \cup OccsOf(s.body, M, file, files, tab, md)
+               [] s.k = "macrocall" ->
+                    LET k == MacroKey(md, scope, s.name) IN
+                    {OccC(s.oid, IF k = "" THEN -1 ELSE md[k].oid, FALSE, file, scope, s.name, <<s.name>>, 1, TRUE)}
+                    \cup (IF k = "" THEN {} ELSE OccsOf(md[k].body, CallScope(scope, s), file, files, tab, md))
                [] s.k = "use" -> LET r == Resolve(tab, scope, s.path) IN
                                  {Occ(s.oids[i], IF r.ok THEN r.oids[i] ELSE -1, FALSE, file, scope, s.path[i], s.path, i) : i \in 1..Len(s.path)}
-               [] s.k = "import" -> OccsOf(files[s.file], Append(scope, s.sid), s.file, files, tab)
+               [] s.k = "import" -> OccsOf(files[s.file], Append(scope, s.sid), s.file, files, tab, md)
                [] OTHER -> {}
-       IN here \cup OccsOf(Tail(prog), scope, file, files, tab)
+       IN here \cup OccsOf(Tail(prog), scope, file, files, tab, md)
 
-Project(files, main) == LET tab == DefsOf(files[main], <<>>, files) IN [tab |-> tab, occs |-> OccsOf(files[main], <<>>, main, files, tab)]
+Project(files, main) == LET md == MacroStmts(files[main], <<>>)
+                            tab == DefsOf(files[main], <<>>, files, md)
+                            occs0 == OccsOf(files[main], <<>>, main, files, tab, md)
+                            called == {o.node : o \in {x \in occs0 : x.call}}
+                            (* the parameters of a macro that is never expanded are bound to nothing in any build: unspecified *)
+                            dead == {"$d" \o ToString(md[k].oid) : k \in {k \in DOMAIN md : md[k].oid \notin called}} IN
+                        [tab |-> tab,
+                         occs |-> {IF o.scope # <<>> /\ o.scope[Len(o.scope)] \in dead THEN [o EXCEPT !.node = NoNode] ELSE o : o \in occs0}]
 ErrorFree(P) == \A o \in P.occs : o.node # -1
 NodeOf(P, oid) == LET S == {o \in P.occs : o.oid = oid} IN IF S = {} THEN -1 ELSE (CHOOSE o \in S : TRUE).node
 OccOf(P, oid) == CHOOSE o \in P.occs : o.oid = oid
@@ -97,6 +151,8 @@ NestedIf0(prog, inIf, files) ==
   \E i \in 1..Len(prog) :
      LET s == prog[i] IN
      CASE s.k = "if0" -> inIf \/ NestedIf0(s.body, TRUE, files)
+       [] s.k = "ifelse" -> inIf \/ NestedIf0(s.then, TRUE, files) \/ NestedIf0(s.else, TRUE, files)
+       [] s.k = "macrodef" -> NestedIf0(s.body, inIf, files)
        [] s.k = "label" -> NestedIf0(s.body, inIf, files)
        [] s.k = "braces" -> NestedIf0(s.body, inIf, files)
        [] s.k = "import" -> NestedIf0(files[s.file], inIf, files)
@@ -111,18 +167,23 @@ Highlights(P, d, file) == {o.oid : o \in {x \in P.occs : x.node = d /\ x.file = 
 (* Pass 0 of the assembler has no segment yet: labels get no value, but the scopes of label blocks exist and constants   *)
 (* are defined in order.  What the occurrence denoted then (-1: nothing).                                                 *)
 PassZeroNode(P, o, ord) ==
-  IF o.def THEN o.node
-  ELSE LET tb == [k \in {k \in DOMAIN P.tab : ord[P.tab[k].oid] < ord[o.oid] /\ P.tab[k].kind \in {"scope", "const"}} |-> P.tab[k]]
+  IF o.def \/ o.call THEN o.node
+  ELSE LET tb == [k \in {k \in DOMAIN P.tab : ord[P.tab[k].oid] < ord[o.oid] /\ P.tab[k].kind \in {"scope", "const", "macro"}} |-> P.tab[k]]
            r == Resolve(tb, o.scope, o.path) IN
        IF r.ok THEN r.oids[o.seg] ELSE -1
 
 (* What the occurrence denoted in the first emitting pass: the labels that follow it in the text have no value yet, while *)
 (* block scopes and constants are known from pass 0.  ord: oid -> textual order.  Used only as the witness of a recorded deviation.                                  *)
 PassOneNode(P, o, ord) ==
-  IF o.def THEN o.node
-  ELSE LET tb == [k \in {k \in DOMAIN P.tab : ord[P.tab[k].oid] < ord[o.oid] \/ P.tab[k].kind \in {"scope", "const"}} |-> P.tab[k]]
+  IF o.def \/ o.call THEN o.node
+  ELSE LET tb == [k \in {k \in DOMAIN P.tab : ord[P.tab[k].oid] < ord[o.oid] \/ P.tab[k].kind \in {"scope", "const", "macro"}} |-> P.tab[k]]
            r == Resolve(tb, o.scope, o.path) IN
        IF r.ok THEN r.oids[o.seg] ELSE -1
+
+(* what the plain scoping query (nearest symbol of any kind) gives for an occurrence; differs from its node only for a   *)
+(* macro call that sits nearer to a non-macro symbol of the same name.  Used as the witness of a recorded deviation.     *)
+PlainNode(P, o) == LET r == Resolve(P.tab, o.scope, o.path) IN IF r.ok THEN r.oids[o.seg] ELSE -1
+ShadowedCalls(P, d) == {o.oid : o \in {x \in P.occs : x.call /\ x.node = d /\ PlainNode(P, x) # d}}
 
 (* ---------------------------------------------------------------- C15 *)
 RenameSet(P, oid) == {o.oid : o \in {x \in P.occs : x.node = NodeOf(P, oid) /\ x.name # "super"}}
@@ -133,6 +194,11 @@ RenameProg(prog, S, new) ==
      CASE s.k = "label" -> [s EXCEPT !.name = IF s.oid \in S THEN new ELSE @, !.body = RenameProg(@, S, new)]
        [] s.k = "const" -> [s EXCEPT !.name = IF s.oid \in S THEN new ELSE @]
        [] s.k \in {"braces", "if0"} -> [s EXCEPT !.body = RenameProg(@, S, new)]
+       [] s.k = "ifelse" -> [s EXCEPT !.then = RenameProg(@, S, new), !.else = RenameProg(@, S, new)]
+       [] s.k = "macrodef" -> [s EXCEPT !.name = IF s.oid \in S THEN new ELSE @,
+                                        !.params = [j \in 1..Len(s.params) |-> IF s.poids[j] \in S THEN new ELSE s.params[j]],
+                                        !.body = RenameProg(@, S, new)]
+       [] s.k = "macrocall" -> [s EXCEPT !.name = IF s.oid \in S THEN new ELSE @]
        [] s.k = "use" -> [s EXCEPT !.path = [j \in 1..Len(s.path) |-> IF s.oids[j] \in S /\ s.path[j] # "super" THEN new ELSE s.path[j]]]
        [] OTHER -> s]
 RenameFiles(files, S, new) == [f \in DOMAIN files |-> RenameProg(files[f], S, new)]
